@@ -36,6 +36,8 @@ TOK = re.compile(r"""
  | (?P<op>::|->|=>|==|!=|<=|>=|&&|\|\||\.\.=|\.\.|\+=|-=|\*=|/=|<<|>>|[-+*/%^!&|=<>@.,;:#$?~(){}\[\]])
 """, re.X | re.S)
 
+LOCAL_STRUCTS, LOCAL_DROPS = {}, {}    # structs / Drop impls declared inside the body being translated
+
 class Bad(Exception):
     pass
 
@@ -189,6 +191,44 @@ class P:
                 if not hooks:
                     stmts.append(("let", name, e))
                 continue
+            if v == "struct" and k == "id":
+                # a struct declared inside the body (a drop guard): its field names
+                self.eat("struct")
+                sname = self.eat()[1]
+                if self.at("<"):
+                    self.skip_angles()
+                if not self.at("{"):
+                    raise Bad("local tuple struct")
+                start = self.i
+                self.skip_balanced("{", "}")
+                ftoks, fields, depth = self.t[start + 1:self.i - 1], [], 0
+                expect = True
+                for kk, vv in ftoks:
+                    if vv in ("<", "(", "["):
+                        depth += 1
+                    elif vv in (">", ")", "]"):
+                        depth -= 1
+                    elif vv == "," and depth == 0:
+                        expect = True
+                    elif expect and kk == "id" and vv not in ("pub",):
+                        fields.append(vv)
+                        expect = False
+                LOCAL_STRUCTS[sname] = fields
+                continue
+            if v == "impl" and k == "id" and self.peek(1)[1] == "Drop" and self.peek(2)[1] == "for":
+                self.eat(); self.eat(); self.eat()
+                sname = self.eat()[1]
+                if self.at("<"):
+                    self.skip_angles()
+                self.eat("{")
+                self.attrs()
+                self.eat("fn")
+                if self.eat()[1] != "drop":
+                    raise Bad("impl Drop without fn drop")
+                self.skip_balanced("(", ")")
+                LOCAL_DROPS[sname] = self.block()
+                self.eat("}")
+                continue
             if v in ("fn", "struct", "impl", "const", "use", "enum", "static") and k == "id" and not (v == "const" and self.peek(1)[1] == "{"):
                 self.item()
                 continue
@@ -279,9 +319,9 @@ class P:
 
     # ---- expressions
     def expr(self, prec=0, stmt=False, nostruct=False):
-        blocklike = stmt and (self.peek()[1] in ("if", "match", "unsafe", "{") )
+        blocklike = stmt and (self.peek()[1] in ("if", "match", "unsafe", "{", "while") )
         lhs = self.unary(nostruct)
-        if blocklike and lhs[0] in ("if", "match", "block") and self.peek()[1] not in (".", "?"):
+        if blocklike and lhs[0] in ("if", "match", "block", "while") and self.peek()[1] not in (".", "?"):
             return lhs
         while True:
             k, v = self.peek()
@@ -429,8 +469,15 @@ class P:
             it = self.expr(nostruct=True)
             body = self.block()
             return ("for", var, it, body)
-        if k == "id" and v in ("while", "loop"):
-            raise Bad(f"loop construct `{v}`")
+        if k == "id" and v == "while":
+            self.eat("while")
+            if self.at("let"):
+                raise Bad("while let")
+            c = self.expr(nostruct=True)
+            body = self.block()
+            return ("while", c, body)
+        if k == "id" and v == "loop":
+            raise Bad("loop construct `loop`")
         if (k == "id" and v == "move") or (k == "op" and v == "|"):
             if v == "move":
                 self.eat()
@@ -632,6 +679,7 @@ TYMAP = [
     (r"^Result < char , ReserveError >$", "Rs Chr"),
     (r"^Self$", "Handle"), (r"^& Self$", "Handle"), (r"^Repr$", "Handle"), (r"^bool$", "Bool"), (r"^usize$", "Nat"), (r"^u8$", "Nat"),
     (r"^& 'static str$", "SStr"), (r"^& str$", "Str"), (r"^$", "Unit"), (r"^char$", "Chr"),
+    (r"^impl FnMut \( char \) -> bool$", "Pred"),
     (r"^impl NumToRepr$", None),
 ]
 
@@ -670,10 +718,64 @@ class Lower:
         self.field_ok = False           # heap_buffer.rs: plain field reads / writes are translated
         self.self_ns = "Repr"           # namespace of `self.method(..)` (Repr / HeapBuffer)
         self.arrays = set()             # locals that hold a `[u8; N]` value
+        self.closures = set()           # parameters of closure type (`impl FnMut(char) -> bool`): calls rebind them
+        self.guard = None               # a live drop guard: {"var", "type", "fields", "alias"}
+        self.in_guard_drop = False      # lowering the guard's `fn drop(&mut self)` body
+        self.uses_fuel = False          # the function contains a `while` loop
 
     def fresh(self):
         self.n += 1
         return f"t{self.n}"
+
+    def guard_drop(self, ind):
+        """the live guard's `fn drop(&mut self)` body, over the current values of its fields"""
+        g = self.guard
+        blk = LOCAL_DROPS.get(g["type"])
+        if blk is None:
+            raise Bad("guard without Drop")
+        save = self.in_guard_drop
+        self.in_guard_drop = True
+        try:
+            return self.block(blk, lambda a: "Rt.pure ()", ind)
+        finally:
+            self.in_guard_drop = save
+
+    def assigned_deep(self, node, lets=None):
+        """locals of the enclosing scope that a statement / block / expression assigns (closure calls rebind the closure)"""
+        out = []
+        lets = set() if lets is None else lets
+        def add(n):
+            if n not in lets and n not in out:
+                out.append(n)
+        def target(lhs):
+            if lhs[0] == "path" and len(lhs[1]) == 1:
+                return lhs[1][0]
+            if self.guard and lhs[0] == "field" and lhs[1] == ("path", [self.guard["var"]]) and lhs[2] != self.guard["alias"]:
+                return f"{self.guard['var']}_{lhs[2]}"
+            if lhs[0] == "index" and lhs[1][0] == "path" and len(lhs[1][1]) == 1 and lhs[1][1][0] in self.arrays:
+                return lhs[1][1][0]
+            return None
+        def walk(x):
+            if isinstance(x, tuple):
+                if x[:1] == ("let",):
+                    walk(x[2]); lets.add(x[1]); return
+                if x[:1] == ("lettuple",):
+                    walk(x[2]); [lets.add(n) for n in x[1]]; return
+                if x[:1] == ("assign",):
+                    walk(x[2])
+                    tn = target(x[1])
+                    if tn:
+                        add(tn)
+                    return
+                if x[:1] == ("call",) and x[1][0] == "path" and len(x[1][1]) == 1 and x[1][1][0] in self.closures:
+                    add(x[1][1][0])
+                for y in x[1:]:
+                    walk(y)
+            elif isinstance(x, list):
+                for y in x:
+                    walk(y)
+        walk(node)
+        return out
 
     def is_array_value(self, e):
         """`[x; n]`, or a block / deref / cast whose value is a `[u8; N]` read through a pointer"""
@@ -688,8 +790,12 @@ class Lower:
         return False
 
     def is_self(self, e):
+        if self.guard and e == ("field", ("path", [self.guard["var"]]), self.guard["alias"]):
+            return True
+        if self.in_guard_drop and self.guard and e == ("field", ("path", ["self"]), self.guard["alias"]):
+            return True
         if e == ("path", ["self"]):
-            return not self.self_field
+            return not self.self_field and not self.in_guard_drop
         if self.self_field and e == ("field", ("path", ["self"]), "0"):
             return True
         return False
@@ -745,6 +851,10 @@ class Lower:
                 raise Bad(f"cast to {ty}")
             return self.ex(e[1], lambda a: self.bindc(f"cast_to {bits} {a}", k, ind), ind)
         if t == "field":
+            if self.guard and e[1] == ("path", [self.guard["var"]]) and e[2] in self.guard["fields"] and e[2] != self.guard["alias"]:
+                return k(ident(f"{self.guard['var']}_{e[2]}"))
+            if self.in_guard_drop and self.guard and e[1] == ("path", ["self"]) and e[2] in self.guard["fields"] and e[2] != self.guard["alias"]:
+                return k(ident(f"{self.guard['var']}_{e[2]}"))
             if self.is_self(e[1]) and e[2] == "0":
                 return self.bindc("Repr.field_0", k, ind)
             if self.is_self(e[1]) and e[2] == "2" and not self.self_field and self.self_ns == "Repr":
@@ -797,7 +907,22 @@ class Lower:
             p = [getattr(self, "self_ty", "Repr") if x == "Self" else x for x in f[1]]
             if p == ["ptr", "read"] and len(e[2]) == 1 and self.is_self(e[2][0]):
                 return self.bindc("Repr.read_self", k, ind)
+            if len(p) == 1 and p[0] in self.closures:
+                # a call of the caller's `FnMut`: it may panic, and its state advances (the closure is rebound)
+                c = ident(p[0])
+                def callc(as_):
+                    comp = f"{c}.rs_call_mut" + "".join(" " + a for a in as_)
+                    if self.guard:
+                        comp = f"dropOnUnwind (\n{'  ' * (ind + 2)}{self.guard_drop(ind + 2)}) ({comp})"
+                    t_ = self.fresh()
+                    return f"Rt.bind ({comp}) fun ({t_}, {c}) =>\n{'  ' * ind}{k(t_)}"
+                return self.args(e[2], callc, ind)
             if p in (["drop"], ["mem", "drop"]):
+                if self.guard and e[2] == [("path", [self.guard["var"]])]:
+                    # `drop(g)`: the guard's destructor runs here, with the current values of its fields
+                    txt = self.guard_drop(ind)
+                    self.guard = None
+                    return f"Rt.bind (\n{'  ' * (ind + 1)}{txt}) fun _ =>\n{'  ' * ind}{k('()')}"
                 raise Bad("explicit drop")
             if len(p) == 1 and p[0].startswith("size_of_") and not e[2]:
                 return k(p[0])
@@ -863,6 +988,8 @@ class Lower:
             # `for x in it { body }`  ==  `it.for_each(|x| body)`
             body = self.block(e[3], lambda a: "Rt.pure ()", ind + 2)
             return self.ex(e[2], lambda it: self.bindc(f"{it}.rs_for_each (fun {ident(e[1])} =>\n{'  ' * (ind + 2)}{body})", k, ind), ind)
+        if t == "while":
+            raise Bad("while loop in expression position")
         if t == "closure":
             raise Bad("closure outside for_each")
         if t == "block":
@@ -962,12 +1089,56 @@ class Lower:
                         pad = "  " * ind
                         return (f"Rt.bind (Repr.assign {a}) fun _ =>\n{pad}dropOnUnwind (LeanString.drop) (\n{pad}  {rest})")
                     return self.ex(rhs, own, ind)
+                if rhs[0] == "struct" and len(rhs[1]) == 1 and rhs[1][0] in LOCAL_STRUCTS and rhs[1][0] in LOCAL_DROPS:
+                    # `let mut g = Guard { self_: self, a: e1, b: e2 }`: the fields become locals `g_a`, `g_b`; the
+                    # guard's destructor runs at `drop(g)` and when a call made while it is alive unwinds
+                    if self.guard:
+                        raise Bad("two live guards")
+                    fields = LOCAL_STRUCTS[rhs[1][0]]
+                    given = dict(rhs[2])
+                    if sorted(given) != sorted(fields):
+                        raise Bad("guard literal does not name every field")
+                    alias = [f for f in fields if given[f] == ("path", ["self"])]
+                    if len(alias) != 1:
+                        raise Bad("guard without exactly one `self` field")
+                    others = [f for f in fields if f != alias[0]]
+                    def bind_fields(j):
+                        if j == len(others):
+                            self.guard = {"var": s[1], "type": rhs[1][0], "fields": fields, "alias": alias[0]}
+                            return go(i + 1)
+                        f = others[j]
+                        return self.ex(given[f], lambda a: (f"Rt.bind (Rt.pure {a}) fun {ident(s[1] + '_' + f)} =>\n{'  ' * ind}{bind_fields(j + 1)}"), ind)
+                    return bind_fields(0)
                 if self.is_array_value(rhs):
                     self.arrays.add(s[1])
                 return self.ex(s[2], lambda a: (f"Rt.bind (Rt.pure {a}) fun {v} =>\n{'  ' * ind}{go(i + 1)}"), ind)
             if s[0] == "lettuple":
                 pat = "(" + ", ".join(ident(n) for n in s[1]) + ")"
                 return self.ex(s[2], lambda a: (f"Rt.bind (Rt.pure {a}) fun {pat} =>\n{'  ' * ind}{go(i + 1)}"), ind)
+            if s[0] == "expr" and s[1][0] == "while":
+                # `while c { body }`: a fuelled loop over the locals the body (or the condition) assigns
+                self.uses_fuel = True
+                carried = self.assigned_deep([s[1][1], s[1][2]])
+                if not carried:
+                    raise Bad("while loop that assigns no local")
+                tup = "(" + ", ".join(ident(n) for n in carried) + ")" if len(carried) > 1 else ident(carried[0])
+                pad = "  " * ind
+                cond = self.ex(s[1][1], lambda c: f"Rt.pure {c}", ind + 2)
+                body = self.block(s[1][2], lambda _: f"Rt.pure {tup}", ind + 2)
+                return (f"Rt.bind (whileLoop (fun {tup} =>\n{pad}    {cond})\n{pad}  (fun {tup} =>\n{pad}    {body})\n{pad}  fuel {tup}) fun {tup} =>\n{pad}{go(i + 1)}")
+            if (s[0] == "expr" and s[1][0] == "if" and not self.assigned_locals(s[1][2])
+                    and self.assigned_deep([s[1][1], s[1][2], s[1][3]]) and (s[1][3] is None or s[1][3][0] == "block")):
+                # `if c { …; x = e; … }`: the branches rebind locals of the enclosing scope (among other statements)
+                names = self.assigned_deep([s[1][2], s[1][3]])
+                cnames = self.assigned_deep([s[1][1]])
+                if names:
+                    tup = "(" + ", ".join(ident(n) for n in names) + ")" if len(names) > 1 else ident(names[0])
+                    pad = "  " * ind
+                    def after_c(c):
+                        thenb = self.block(("block", s[1][2][1], None), lambda _: f"Rt.pure {tup}", ind + 2)
+                        elseb = f"Rt.pure {tup}" if s[1][3] is None else self.block(("block", s[1][3][1], None), lambda _: f"Rt.pure {tup}", ind + 2)
+                        return (f"Rt.bind (ifM {c} (\n{pad}    {thenb})\n{pad}  (\n{pad}    {elseb})) fun {tup} =>\n{pad}{go(i + 1)}")
+                    return self.ex(s[1][1], after_c, ind)
             if s[0] == "expr" and s[1][0] == "if" and s[1][3] is None and self.assigned_locals(s[1][2]):
                 # `if c { x = e; }`: the branch rebinds locals of the enclosing scope
                 names = self.assigned_locals(s[1][2])
@@ -1001,6 +1172,9 @@ class Lower:
                     return self.ex(s[2], lambda a: self.bindc(f"{self.self_ns}.set_{lhs[2]} {a}", lambda _: go(i + 1), ind), ind)
                 if self.field_ok and lhs[0] == "deref" and lhs[1] == ("path", ["self"]):
                     return self.ex(s[2], lambda a: self.bindc(f"{self.self_ns}.assign {a}", lambda _: go(i + 1), ind), ind)
+                if self.guard and lhs[0] == "field" and lhs[1] == ("path", [self.guard["var"]]) and lhs[2] in self.guard["fields"] and lhs[2] != self.guard["alias"]:
+                    v = ident(f"{self.guard['var']}_{lhs[2]}")
+                    return self.ex(s[2], lambda a: (f"Rt.bind (Rt.pure {a}) fun {v} =>\n{'  ' * ind}{go(i + 1)}"), ind)
                 if lhs[0] == "path" and len(lhs[1]) == 1:
                     # `x = e` / `x += e` on a `let mut` local: rebind
                     v = ident(lhs[1][0])
@@ -1096,6 +1270,7 @@ TARGETS = [
     ("repr.rs", "impl Repr", "insert_str", "Repr.insert_str", False),
     ("repr.rs", "impl Repr", "remove", "Repr.remove", False),
     ("repr.rs", "impl Repr", "pop", "Repr.pop", False),
+    ("repr.rs", "impl Repr", "retain", "Repr.retain", False),
     ("repr.rs", "impl Repr", "is_heap_buffer", "Repr.is_heap_buffer_body", False),
     ("repr.rs", "impl Repr", "is_static_buffer", "Repr.is_static_buffer_body", False),
     ("lib.rs", "impl LeanString", "clear", "LeanString.clear", True),
@@ -1166,6 +1341,7 @@ SIGS = {
     "Repr.shrink_to": ([("min_capacity", "Nat")], "Rs Unit"), "Repr.ensure_modifiable": ([], "Rs Unit"),
     "Repr.push_str": ([("string", "Str")], "Rs Unit"), "Repr.insert_str": ([("idx", "Nat"), ("string", "Str")], "Rs Unit"),
     "Repr.remove": ([("idx", "Nat")], "Rs Chr"), "Repr.pop": ([], "Rs (Option Chr)"),
+    "Repr.retain": ([("predicate", "Pred"), ("fuel", "Nat")], "Rs Unit"),
     "Repr.is_heap_buffer_body": ([], "Bool"), "Repr.is_static_buffer_body": ([], "Bool"),
     "LeanString.clear": ([], "Unit"),
     "LeanString.clone": ([], "Handle"), "LeanString.clone_from": ([("source", "Handle")], "Unit"), "LeanString.drop": ([], "Unit"),
@@ -1234,17 +1410,25 @@ def translate_one(srcs, cache, file, header, fn, lname, self_field, generated, o
             raise Bad(f"signature changed: {len(ps)} parameters")
         lps = [(ident(n), t) for (n, _), (_, t) in zip(ps, exp[0])]
         rt = exp[1]
-    elif [t for _, t in lps] != [t for _, t in exp[0]] or rt != exp[1]:
+    elif [t for _, t in lps] != [t for n, t in exp[0] if n != "fuel"] or rt != exp[1]:
         raise Bad(f"signature changed: ({lps}) -> {rt}")
+    LOCAL_STRUCTS.clear(); LOCAL_DROPS.clear()
     p = P(body)
     blk = p.block()
     static_fn = not any(v == "self" for _, v in params)
     lo = Lower(generated, self_field, static_fn, RENAMES.get(lname))
+    lo.closures = {ident(n) for n, t in lps if t == "Pred"}
     if opts.get("ns"):
         lo.self_ns = opts["ns"]
         lo.field_ok = True
     lo.self_ty = opts.get("self_ty", "Repr")
     text = lo.block(blk, lambda a: f"Rt.pure {a}", 1)
+    if lo.guard:
+        raise Bad("a drop guard is still alive at the end of the function (only an explicit `drop(g)` is translated)")
+    if lo.uses_fuel:
+        lps = lps + [("fuel", "Nat")]
+    if [t for _, t in lps] != [t for _, t in exp[0]] and not opts.get("trust_sig"):
+        raise Bad(f"signature changed: ({lps}) -> {rt}")
     sig = "".join(f" ({n} : {t})" for n, t in lps)
     return f"def {lname}{sig} : M ({rt}) ({rt}) :=\n  {text}\n"
 
